@@ -1,5 +1,6 @@
 import CookModel.Side.BindingsSpec
 import CookModel.Lemmas.BindingsCombine
+import CookModel.Lemmas.BindingsMerge
 import CookModel.Lemmas.ParsedScaled
 /-
   C19  The FFI view mirrors the core recipe and combines amounts faithfully.
@@ -214,6 +215,52 @@ theorem C19_combine_selected_perm (ings : List (FIngredient Rat)) (indices indic
   have : (indices.filterMap (fun i => ings[i]?)).length ≤ indices.length := List.length_filterMap_le _ _
   omega
 
+/-- `merge_ingredient_lists` (bindings/src/model.rs; public, not exported over the FFI), over any
+    arithmetic: for kind-consistent lists (`AllKindOK`: every stored value has the kind its key says —
+    true of everything `combine_ingredients` returns, `C19_combined_is_mergeable`) and `right` a map, it
+    does not panic, the result is kind-consistent again, and under every (name, key) it holds the value of
+    `left` alone, the value of `right` alone, or — when both have one — the stored value with the added
+    one (`plus`: numbers added, ranges end-wise, texts concatenated, Empty kept).  Nothing is lost, nothing
+    invented, whatever the iteration order of `right`'s outer map (the statement is per key). -/
+theorem C19_merge_lists_values {α} [Arith α] (left right : Ffi.IngredientList α)
+    (hl : AllKindOK left) (hr : AllKindOK right) (hmap : IngredientList.IsMap right) :
+    ∃ m, mergeIngredientLists left right = .ok m ∧ AllKindOK m ∧
+      ∀ name key, IngredientList.value m name key =
+        mergedValue (IngredientList.value left name key) (IngredientList.value right name key) :=
+  bmerge_lists_map left right hl hr hmap
+
+/-- … in particular numeric amounts under the same name and unit are summed, ranges end-wise -/
+theorem C19_merge_lists_sums (left right : Ffi.IngredientList Rat)
+    (hl : AllKindOK left) (hr : AllKindOK right) (hmap : IngredientList.IsMap right) :
+    ∃ m, mergeIngredientLists left right = .ok m ∧
+      ∀ name key,
+        (∀ a b, IngredientList.value left name key = some (.number a) →
+          IngredientList.value right name key = some (.number b) →
+          IngredientList.value m name key = some (.number (a + b))) ∧
+        (∀ a a' b b', IngredientList.value left name key = some (.range a a') →
+          IngredientList.value right name key = some (.range b b') →
+          IngredientList.value m name key = some (.range (a + b) (a' + b'))) ∧
+        (IngredientList.value right name key = none →
+          IngredientList.value m name key = IngredientList.value left name key) ∧
+        (IngredientList.value left name key = none →
+          IngredientList.value m name key = IngredientList.value right name key) := by
+  obtain ⟨m, h1, _, h3⟩ := bmerge_lists_map left right hl hr hmap
+  refine ⟨m, h1, fun name key => ⟨?_, ?_, ?_, ?_⟩⟩
+  · intro a b ha hb; rw [h3, ha, hb]; rfl
+  · intro a a' b b' ha hb; rw [h3, ha, hb]; rfl
+  · intro hb; rw [h3, hb]; cases IngredientList.value left name key <;> rfl
+  · intro ha; rw [h3, ha]; cases IngredientList.value right name key <;> rfl
+
+/-- what `combine_ingredients` returns can be merged: it is a map and kind-consistent -/
+theorem C19_combined_is_mergeable {α} [Arith α] (ings : List (FIngredient α)) (hlen : ings.length ≤ 4294967296)
+    (m : Ffi.IngredientList α) (h : combineIngredients ings = .ok m) :
+    AllKindOK m ∧ IngredientList.IsMap m := by
+  rw [combineIngredients_eq_addAll ings hlen] at h
+  obtain ⟨m', h1, h2, h3, h4, _⟩ := addAll_spec ings ([] : Ffi.IngredientList α) (fun p hp => by simp at hp)
+  rw [h1] at h
+  cases h
+  exact ⟨h2, h3 (by simp [AList.keys]), h4 (fun p hp => by simp at hp)⟩
+
 /-! ### every recipe the parser returns (link to C06, Lemmas/ParsedScaled.lean)
 
   `ParsedScaled r`: `r` is what `parse` returns for some environment and input (valid or alongside
@@ -278,6 +325,12 @@ example : numbersOf exIngs "salt".toList "g".toList = [5, 1/2] := by decide +ker
 example : combineIngredientsSelected exIngs [2, 0, 2] = combineIngredients [exIngs[2], exIngs[0], exIngs[2]] := by
   decide +kernel
 example : combineIngredientsSelected exIngs [7] = .error (.unwrapNone "expand_with_ingredients") := by decide +kernel
+/-- two combined lists merged: salt 5 g + ½ g, pepper 1–2 kept -/
+example : (mergeIngredientLists
+      [("salt".toList, [(⟨"g".toList, .number⟩, FValue.number (5 : Rat))])]
+      [("pepper".toList, [(⟨[], .range⟩, .range 1 2)]), ("salt".toList, [(⟨"g".toList, .number⟩, .number (1/2))])]) = .ok
+    [("salt".toList, [(⟨"g".toList, .number⟩, .number (11/2))]), ("pepper".toList, [(⟨[], .range⟩, .range 1 2)])] := by
+  decide +kernel
 /-- a selection given in two orders: the numeric entries agree -/
 example : (combineIngredientsSelected exIngs [0, 2, 4, 1]).map (fun m => (IngredientList.value m "salt".toList ⟨"g".toList, .number⟩,
       IngredientList.value m "pepper".toList ⟨[], .range⟩)) =
